@@ -6,7 +6,8 @@
    NOT proved: that every dereference of the module parsers is dominated by such a predicate; absence of
    use-after-free / uninitialised reads / leaks; termination of the C.  checks/c06.py explores those. *)
 From Coq Require Import ZArith List.
-From YV Require Import Base.USem gen.GenBounds Model.PeRva Proofs.BoundsProofs.
+From YV Require Import Base.USem gen.GenBounds Model.PeRva Proofs.BoundsProofs Proofs.RecursionProofs.
+Import ListNotations.
 Local Open Scope Z_scope.
 
 Theorem fits_in_pe_sound : forall base size p n,
@@ -65,6 +66,18 @@ Theorem exports_tables_in_bounds : forall nfun_raw nn_raw avail_o avail_f avail_
      forall j, 0 <= j < exp_names_index_bound nexp nnames -> sizeof_DWORD * (j + 1) <= avail_n).
 Proof. exact exports_tables_in_bounds_l. Qed.
 Print Assumptions exports_tables_in_bounds.
+
+(* dotnet.c: the functions that carry a `depth` counter against loops (parse_signature_type, get_type_def_or_ref_fullname,
+   parse_enclosing_types): the call graph between them, what every call passes as depth (depth, depth + 1, or a constant) and
+   which functions test depth against their limit before calling anything are regenerated from the source.  On EVERY closed
+   call chain no call passes a constant, at least one passes depth + 1, and a function that tests depth lies on it: the
+   recursion depth is bounded by the limits.  (A call site that passes `depth` unchanged on a cycle breaks this.) *)
+Theorem dotnet_recursion_guarded : forall f es, chain dotnet_depth_calls f f es ->
+  (forall e, In e es -> snd e <> (-1)%Z) /\
+  (exists e, In e es /\ snd e = 1%Z) /\
+  (exists e, In e es /\ (gd dotnet_depth_guarded (fst (fst e)) = true \/ gd dotnet_depth_guarded (snd (fst e)) = true)).
+Proof. exact dotnet_recursion_guarded_l. Qed.
+Print Assumptions dotnet_recursion_guarded.
 
 Theorem rva_to_offset_in_range : forall pe secs rva off,
   0 <= pe_data_size pe <= 9223372036854775807 ->
